@@ -36,6 +36,30 @@ namespace BitSerializer::Detail
 
 	//-----------------------------------------------------------------------------
 
+	/// <summary>
+	/// The binary timestamp keeps nanoseconds in the range 0...999999999 (as MsgPack requires), times before the epoch
+	/// with a fraction are stored as floor(seconds) plus a positive fraction (-0.5s => Seconds = -1, Nanoseconds = 500000000).
+	/// </summary>
+	inline void NormalizeNegativeFraction(CBinTimestamp& timestamp) noexcept
+	{
+		if (timestamp.Nanoseconds < 0)
+		{
+			--timestamp.Seconds;
+			timestamp.Nanoseconds += 1000000000;
+		}
+	}
+
+	/// <summary>
+	/// Reverse of `NormalizeNegativeFraction()`: both parts get the same sign, so no intermediate value exceeds the result.
+	/// </summary>
+	[[nodiscard]] inline CBinTimestamp SplitTowardsZero(const CBinTimestamp& timestamp) noexcept
+	{
+		if (timestamp.Seconds < 0 && timestamp.Nanoseconds > 0) {
+			return CBinTimestamp(timestamp.Seconds + 1, timestamp.Nanoseconds - 1000000000);
+		}
+		return timestamp;
+	}
+
 	template <typename TClock, typename TDuration>
 	void To(const std::chrono::time_point<TClock, TDuration>& timePoint, CBinTimestamp& outTimestamp)
 	{
@@ -51,12 +75,14 @@ namespace BitSerializer::Detail
 			outTimestamp.Seconds = std::chrono::duration_cast<std::chrono::seconds>(epochTime).count();
 			const auto leftTime = epochTime - std::chrono::duration_cast<TDuration>(std::chrono::seconds(outTimestamp.Seconds));
 			outTimestamp.Nanoseconds = static_cast<int32_t>(std::chrono::duration_cast<std::chrono::nanoseconds>(leftTime).count());
+			NormalizeNegativeFraction(outTimestamp);
 		}
 	}
 
 	template <typename TClock, typename TDuration>
-	void To(const CBinTimestamp& timestamp, std::chrono::time_point<TClock, TDuration>& outTimePoint)
+	void To(const CBinTimestamp& inTimestamp, std::chrono::time_point<TClock, TDuration>& outTimePoint)
 	{
+		const CBinTimestamp timestamp = SplitTowardsZero(inTimestamp);
 		outTimePoint = std::chrono::time_point<TClock, TDuration>(
 			Convert::Detail::SafeDurationCast<TDuration>(std::chrono::seconds(timestamp.Seconds)));
 		if (timestamp.Nanoseconds)
@@ -91,13 +117,15 @@ namespace BitSerializer::Detail
 			outTimestamp.Seconds = std::chrono::duration_cast<std::chrono::seconds>(duration).count();
 			const auto leftTime = duration - std::chrono::duration_cast<std::chrono::duration<TRep, TPeriod>>(std::chrono::seconds(outTimestamp.Seconds));
 			outTimestamp.Nanoseconds = static_cast<int32_t>(std::chrono::duration_cast<std::chrono::nanoseconds>(leftTime).count());
+			NormalizeNegativeFraction(outTimestamp);
 		}
 	}
 
 	template <class TRep, class TPeriod>
-	void To(const CBinTimestamp& timestamp, std::chrono::duration<TRep, TPeriod>& outDuration)
+	void To(const CBinTimestamp& inTimestamp, std::chrono::duration<TRep, TPeriod>& outDuration)
 	{
 		using TDuration = std::chrono::duration<TRep, TPeriod>;
+		const CBinTimestamp timestamp = SplitTowardsZero(inTimestamp);
 
 		outDuration = Convert::Detail::SafeDurationCast<TDuration>(std::chrono::seconds(timestamp.Seconds));
 		if (timestamp.Nanoseconds)
